@@ -971,7 +971,9 @@ def tv_closed_forms(ctx, lean):
             inside = (x >= lo_s) & (x <= hi_s)
             rt = {'uniform': 1e-14, 'norm': 5e-13, 'loglaplace': 1e-12, 'truncnorm': 2e-12}[fam] + 16 * FEPS / D
             with np.errstate(all='ignore'):
-                ref = {'pdf': mc.pdf(x, **pr), 'cdf': mc.cdf(x, **pr), 'logpdf': mc.logpdf(x, **pr), 'ppf': mc.ppf(q, **pr)}
+                # the library's own methods (bitwise `MODEL_CLASS.<fn>(., **_params)` by corr:scipy-forwarding)
+                ref = {'pdf': m.probability_density(x), 'cdf': m.cumulative_distribution(x),
+                       'logpdf': m.log_probability_density(x), 'ppf': m.percent_point(q)}
             for fn in ('pdf', 'cdf', 'logpdf', 'ppf'):
                 arg = q if fn == 'ppf' else x
                 if fn == 'ppf' and fam in ('norm', 'truncnorm'):
@@ -1022,7 +1024,9 @@ def tv_closed_forms(ctx, lean):
                         if fn == 'logpdf':
                             tol = (rt + 1e-13) * max(1.0, abs(a)) + 64 * FEPS * param_cond(pr)
                         elif fn == 'cdf':
-                            tol = rt * abs(a) + 8 * FEPS / D + 1e-300
+                            # RELATIVE, also far in the lower tail (x = loc - 38 scale …); only truncnorm's closed
+                            # form (Phi(y) - Phi(a))/D cancels there and needs an absolute term
+                            tol = rt * abs(a) + (8 * FEPS / D if fam == 'truncnorm' else 0.0) + 1e-300
                         elif fn == 'ppf':
                             tol = rt * max(abs(a), abs(loc), sc) + 1e-300
                         else:
@@ -1901,6 +1905,106 @@ def search_exact_hits(ctx, rng, counts, deep):
         examine_exact_hits(ctx, spec, data, rng.randrange(2 ** 31), counts)
 
 
+# ------------------------------------------------------------------ RELATIVE accuracy in the lower tail
+Q_LOW = [1e-3, 1e-6, 1e-10, 1e-16, 1e-25]
+
+
+def examine_lower_tail(ctx, spec, data, counts):
+    """scipy-backed families (directly and through the wrapper): at the model's own quantiles x_k = ppf(q_k),
+    q_k = 1e-3 … 1e-25, the CDF must be q_k to RELATIVE 1e-6 (a CDF computed as 1 - sf is quantised to 1.1e-16
+    there), be positive where the density is, invert back (ppf(cdf(x_k)) = x_k) and its increments over tail
+    intervals must be the integral of the density, relatively.  Only the lower tail: near 1 the CDF itself is
+    rounded to 1 by the unchanged library."""
+    m = fit(spec, data)
+    if isinstance(m, tuple) or is_const(m) or is_kde(m):
+        return
+    inst = inst_of(m)
+    icls = type(inst).__name__
+    ctx.count(f'lower-tail.{spec["cls"]}' + (f'->{icls}' if spec['cls'] == 'Univariate' else ''))
+    pr = {k: float(v) for k, v in inst._params.items()}
+    loc, sc = pr.get('loc', 0.0), pr.get('scale', 1.0)
+    extra = 1e3 * 2.3e-16 * param_cond(pr)
+    d = np.asarray(data, dtype=float)
+
+    def fail(kind, inp, obs, req, key=None):
+        counts['failures'] += 1
+        key = key or f'{icls}.cumulative_distribution:lower-tail-relative-accuracy'
+        if sum(1 for f in ctx.failing if f['class'] == key) < 3:
+            ctx.fail_input(f'{spec["cls"]}.cumulative_distribution', dict(inp, spec=spec, data=d.tolist(), law='lower-tail',
+                                                                         check=kind, params=pr), obs, req, key)
+    qs = np.array(Q_LOW)
+    r = call(m.percent_point, np.concatenate([[0.0], qs]))
+    if r[0] == 'err':
+        return
+    end, X = float(r[1][0]), r[1][1:]
+    with np.errstate(all='ignore'):
+        F = call(m.cumulative_distribution, X)
+        f = call(m.probability_density, X)
+    if F[0] == 'err' or f[0] == 'err':
+        return
+    F, f = F[1], f[1]
+    usable = []
+    for k, (q, x, Fx, fx) in enumerate(zip(qs, X, F, f)):
+        mag = max(abs(x), abs(loc), sc)
+        if not math.isfinite(x) or x == end or abs(x - end) <= 64 * FEPS * mag or not (fx > 0) or not math.isfinite(fx):
+            ctx.count('lower-tail.skip-at-support-end')
+            continue
+        # one rounding of x (or of x - loc) moves the CDF relatively by pdf/cdf * ulp
+        cond = 8 * FEPS * mag * fx / q
+        if not cond <= 1e-4:
+            ctx.count('lower-tail.skip-ill-conditioned')
+            continue
+        counts['checks'] += 3
+        tol = 1e-6 + cond + extra
+        if not (Fx > 0):
+            fail('positive', {'q': float(q), 'x': float(x)}, {'cdf': float(Fx), 'pdf': float(fx)},
+                 'cdf(x) > 0 where pdf(x) > 0 (x = the model\'s own quantile of q)')
+            return
+        if not abs(Fx - q) <= tol * q:
+            fail('cdf-of-quantile', {'q': float(q), 'x': float(x)}, {'cdf': float(Fx), 'relative_error': float(abs(Fx - q) / q)},
+                 f'|cdf(ppf(q)) - q| <= {tol:.2g} * q in the lower tail')
+            return
+        back = call(m.percent_point, np.array([Fx]))
+        if back[0] == 'ok':
+            xb = float(back[1][0])
+            tolx = (1e-6 + extra) * mag + 8 * FEPS * mag
+            if not abs(xb - x) <= tolx:
+                fail('ppf-of-cdf', {'q': float(q), 'x': float(x)}, {'cdf': float(Fx), 'ppf(cdf)': xb},
+                     'ppf(cdf(x)) = x at the model\'s own lower-tail quantiles',
+                     key=f'{icls}.percent_point:lower-tail-round-trip')
+                return
+        usable.append((float(x), float(Fx), tol))
+    # increments over tail intervals = integral of the density, relatively
+    usable.sort()
+    for (xa, Fa, ta), (xb, Fb, tb) in zip(usable[:-1], usable[1:]):
+        if not xb > xa:
+            continue
+        try:
+            with np.errstate(all='ignore'):
+                integ, qerr = gl_integral(lambda t: np.asarray(m.probability_density(t), dtype=float) / Fb, xa, xb)
+        except Exception:  # noqa
+            continue
+        counts['checks'] += 1
+        want = (Fb - Fa) / Fb
+        tol = 1e-6 + 4 * qerr + ta + tb
+        if not abs(integ - want) <= tol:
+            fail('integral', {'a': xa, 'b': xb}, {'integral_pdf/cdf(b)': integ, '(cdf(b)-cdf(a))/cdf(b)': want,
+                                                  'cdf(a)': Fa, 'cdf(b)': Fb},
+                 f'|int_a^b pdf - (cdf(b) - cdf(a))| <= {tol:.2g} * cdf(b) on lower-tail intervals')
+            return
+
+
+def search_lower_tail(ctx, rng, counts, deep):
+    for rep in range(4 if deep else 1):
+        for cls in SCIPY:
+            meta, data = gen_data(rng, n=rng.choice([8, 30, 120]))
+            examine_lower_tail(ctx, gen_spec(rng, cls, data), data, counts)
+        for k in range(2):
+            meta, data = gen_data(rng, n=rng.choice([8, 30, 120]))
+            cands = [SCIPY[(2 * rep + k) % len(SCIPY)]] if k == 0 else rng.sample(list(SCIPY), 2)
+            examine_lower_tail(ctx, {'cls': 'Univariate', 'opts': {'candidates': cands}}, data, counts)
+
+
 def search_tails(ctx, rng, counts, deep):
     for rep in range(4 if deep else 1):
         for cls in ALL:
@@ -1924,6 +2028,7 @@ def search(ctx, deep):
     search_tails(ctx, ctx.rng('search-tails'), counts, deep)
     search_composition(ctx, ctx.rng('search-composition'), counts, deep)
     search_exact_hits(ctx, ctx.rng('search-exact-hits'), counts, deep)
+    search_lower_tail(ctx, ctx.rng('search-lower-tail'), counts, deep)
     search_shared(ctx, ctx.rng('search-shared'), counts, deep)
     search_history(ctx, ctx.rng('search-history'), counts, deep)
     search_batch(ctx, ctx.rng('search-batch'), counts, deep)
@@ -1982,6 +2087,9 @@ def replay(ctx, payload):
     if inp.get('law') == 'shared':
         examine_shared(ctx, inp['candidates'], [np.array(d_, dtype=float) for d_ in inp['datasets']], inp['seeds'],
                        counts, inp.get('seeded_protos', False))
+        return any(f['class'] == payload.get('class') for f in ctx.failing[before:])
+    if inp.get('law') == 'lower-tail':
+        examine_lower_tail(ctx, inp['spec'], np.array(inp['data'], dtype=float), counts)
         return any(f['class'] == payload.get('class') for f in ctx.failing[before:])
     if inp.get('law') == 'exact-hits':
         examine_exact_hits(ctx, inp['spec'], np.array(inp['data'], dtype=float), inp['seed'], counts)
